@@ -591,6 +591,14 @@ func (fx *FuncVC) checkDeref(p PtrV, pos token.Pos) {
 }
 
 func (fx *FuncVC) execUnOp(fr *frame, x *ssa.UnOp) {
+	if g, ok := x.X.(*ssa.Global); ok && x.Op == token.MUL {
+		// a package-level string variable that is initialised with a constant and never assigned again
+		if lit, ok := fx.eng.constStringVar(g); ok {
+			fr.regs[x] = fx.strConst(lit)
+			fx.note("package-level string variable " + g.Name() + " is only assigned its constant initialiser (checked on the SSA): its value is used")
+			return
+		}
+	}
 	v := fx.val(fr, x.X)
 	switch x.Op {
 	case token.MUL:
